@@ -1,7 +1,8 @@
 // kernsweep ties the block model of the amd64 kernels (C13) to the real assembly: a guard-page
 // differential sweep.  The argument is placed flush against a PROT_NONE page on the right, then on
 // the left, then at interior offsets (all 64 alignments); the bytes around it inside the mapped
-// window are poisoned with the needle; results are compared with the scalar definition.  A load
+// window are poisoned with the needle; results are compared with the scalar definition, and the argument and the 64 bytes either side of it must be unchanged
+// after the call (got = -98 / -97 in a report: the kernel wrote to memory).  A load
 // that crosses into the guard page faults, which SetPanicOnFault turns into a recoverable panic.
 package main
 
@@ -211,6 +212,20 @@ func sweep(k kernel, maxLen int) {
 			want = refNonASCII(data)
 		}
 		got, fault := safeCall(k, s, c)
+		// the kernels must not write: the argument and the bytes around it are as before the call
+		if !fault {
+			for i := range s {
+				if s[i] != data[i] {
+					got, fault = -98, true
+					break
+				}
+			}
+			for d := 1; d <= 64 && !fault; d++ {
+				if o-d >= 0 && win[o-d] != poison || o+len(data)+d-1 < len(win) && win[o+len(data)+d-1] != poison {
+					got, fault = -97, true
+				}
+			}
+		}
 		lev++
 		ldist[[4]int{len(data), o & 63, int(c), k.kind}] = true
 		if *flagAsmOps != "" && k.direct && !fault && len(data) <= 200 && curPOPCNT {
